@@ -9,6 +9,7 @@ import (
 	"bytes"
 	"encoding/binary"
 	"fmt"
+	"os"
 	"strings"
 
 	"github.com/wi1dcard/fingerproxy/pkg/http2"
@@ -114,6 +115,40 @@ func drawFlow(t *rapid.T, check string) *Case {
 		c.Nontrivial = func(w *World, c *Case) bool { return len(w.Clients[0].Recv) > 0 }
 		return c
 	}
+	if check == "C12" && drawBool(t, "abortstorm", 5) {
+		// a long history of uploads that the client cancels while the handler is copying
+		// the body: HEADERS + 8 KiB, later 16 x 2 KiB DATA and RST_STREAM in one TLS write
+		k := rapid.IntRange(30, 90).Draw(t, "stormlen")
+		id := uint32(1)
+		for i := 0; i < k; i++ {
+			tag := fmt.Sprintf("c0-s%d", i)
+			fields := [][2]string{{":method", "POST"}, {":scheme", "https"}, {":authority", "fc.verif.test"}, {":path", "/" + tag}, {"x-tag", tag}}
+			fs := HeadersFrames(id, enc.Block(fields), false, nil, -1, nil)
+			fs = append(fs, DataFrame(id, bodyBytes(tag, 8192), false, -1))
+			write(fs...)
+			var burst []Frame
+			for j := 0; j < 16; j++ {
+				burst = append(burst, DataFrame(id, bodyBytes(tag, 2048), false, -1))
+			}
+			burst = append(burst, RSTFrame(id, ErrCancel))
+			steps = append(steps, Step{Kind: "write", Pieces: [][]byte{FramesBytes(burst...)}, WhenQuiet: drawBool(t, "stormquiet", 70)})
+			nwrite++
+			aux.Uploads[id] = 8192 + 16*2048
+			aux.ClientReset[id] = true
+			id += 2
+		}
+		steps = append(steps, Step{Kind: "write", Pieces: [][]byte{FramesBytes(PingFrame(false, [8]byte{0xfc}))}, WhenQuiet: true})
+		steps = append(steps, Step{Kind: "h2ping", WhenQuiet: true}, Step{Kind: "close"})
+		cp.Steps = steps
+		p.Clients = []*ClientPlan{cp}
+		p.Fences = drawBool(t, "fences", 20)
+		p.BodyReadFences = drawBool(t, "bodyreadfences", 80)
+		p.Tape, p.Tail = drawTape(t, 64)
+		c := &Case{Plan: p, Metas: []*ClientMeta{{Proto: "h2"}}, Aux: aux, Oracle: oracleC12}
+		c.Summary = fmt.Sprintf("abort storm: %d uploads of 40 KiB cancelled by RST_STREAM behind their last DATA frames while the handler copies the body", k)
+		c.Nontrivial = func(w *World, c *Case) bool { return len(w.Clients[0].Recv) > 3 }
+		return c
+	}
 	// requests
 	n := rapid.IntRange(1, 8).Draw(t, "nstreams")
 	if drawBool(t, "many", 5) {
@@ -133,7 +168,7 @@ func drawFlow(t *rapid.T, check string) *Case {
 			// POST with a body: exercises the server's receive windows / credit return
 			sz := []int{0, 1, 100, 5000, 40000, 120000}[rapid.IntRange(0, 5).Draw(t, "upsz")]
 			if n > 20 {
-				sz = rapid.IntRange(0, 3000).Draw(t, "upszsmall")
+				sz = rapid.IntRange(0, 30000).Draw(t, "upszsmall")
 			}
 			body := bodyBytes(tag, sz)
 			fields := [][2]string{{":method", "POST"}, {":scheme", "https"}, {":authority", "fc.verif.test"}, {":path", "/" + tag}, {"x-tag", tag}}
@@ -156,6 +191,20 @@ func drawFlow(t *rapid.T, check string) *Case {
 				sent += len(f.Payload)
 				fs = append(fs, f)
 				rest = rest[k:]
+			}
+			if sz > 0 && drawBool(t, "upabort", 30) {
+				// the client cancels the upload right behind its last DATA frame (same TLS write):
+				// the reset meets a handler that is still reading the body
+				last := len(fs) - 1
+				fs[last].Flags &^= FlagEndStream
+				fs = append(fs, RSTFrame(id, ErrCancel))
+				aux.ClientReset[id] = true
+				aux.Uploads[id] = sent
+				aux.UploadTags[id] = tag
+				aux.Streams[id] = tag
+				aux.Bodies[tag] = nil
+				write(fs...)
+				continue
 			}
 			aux.Uploads[id] = sent
 			aux.UploadTags[id] = tag
@@ -295,6 +344,7 @@ func drawFlow(t *rapid.T, check string) *Case {
 	}
 	p.Clients = []*ClientPlan{cp}
 	p.Fences = drawBool(t, "fences", 30)
+	p.BodyReadFences = check == "C12" && drawBool(t, "bodyreadfences", 30)
 	p.Tape, p.Tail = drawTape(t, 128)
 	c := &Case{Plan: p, Metas: []*ClientMeta{{Proto: "h2"}}, Aux: aux}
 	var ev []string
@@ -523,6 +573,9 @@ func oracleC12(w *World, c *Case) {
 	}
 	if up > 0 && firstServerWU >= 0 {
 		unreturned := up - (serverConnWU - firstServerWU)
+		if osGetenv("VERIF_DEBUG_CREDIT") != "" {
+			fmt.Fprintf(os.Stderr, "CREDIT up=%d returned=%d unreturned=%d uploads=%d\n", up, serverConnWU-firstServerWU, unreturned, len(aux.Uploads))
+		}
 		if unreturned > 16384 {
 			w.Violate("connection_credit_leak", "connection_credit_leak", "the client uploaded %d bytes of DATA (incl. padding) on %d streams; %d bytes of connection-level credit were never returned (bound 16384) | %s", up, len(aux.Uploads), unreturned, desc)
 		}
